@@ -84,7 +84,7 @@ def gen_dump(rnd, big=False, allow_zero_tid=True):
 def gen_cfg(rnd):
     return {'ftid': rnd.choice([0, 0, 1, 2, 3, 9]),
             'fproc': rnd.choice([{'kind': 'none'}, {'kind': 'none'}, {'kind': 'pid', 'pid': rnd.choice([11, 12, 14, 0])},
-                                 {'kind': 'name', 'name': rnd.choice(['alpha', 'beta', 'delta', 'newp'])}]),
+                                 {'kind': 'name', 'name': rnd.choice(['alpha', 'beta', 'delta', 'newp', ''])}]),
             'fclass': list(rnd.choice(CLASS_LISTS)), 'fsub': list(rnd.choice(SUB_LISTS))}
 
 
@@ -133,6 +133,8 @@ def run(ctx):
             if j and rnd.random() < 0.4 and not same_twice:
                 cfg = gen_cfg(rnd)                     # the caller changes options between requests
             apply_cfg(w, p, cfg, as_tuple=(i + j) % 3 == 0)
+            for flag in ('show_timestamp', 'show_name', 'show_func_qual', 'show_tid', 'show_process', 'show_args', 'color'):
+                setattr(p, flag, rnd.random() < 0.5)       # presentation options must not change WHAT is selected
             op = op0 if same_twice else rnd.choice(['traces', 'traces', 'traces', 'callstacks', 'kevents'])
             r, texts = request(w, p, dump, op)
             reqs.append(r)
